@@ -10,6 +10,7 @@ import OFV.Spec.C07BCH
 import OFV.Proofs.C07Pauli
 import OFV.Proofs.C07Fermi
 import OFV.Proofs.C07Dual
+import OFV.Proofs.C07BCH
 
 namespace OFV.C07
 open OFV OFV.Spec OFV.Spec.C07 OFV.Model OFV.Model.C07 OFV.Proofs.C07 OFV.Proofs.C07F
@@ -268,5 +269,13 @@ theorem bch_exact_upto_6_partial (k : Nat) (hk : k ≤ 6) :
 /-- the check is not vacuous: doubling the third-order coefficients breaks it -/
 example : Spec.BCH.check 3 ((generateNestedCommutator 3).map fun tc =>
     (tc.1, if tc.1.length = 3 then 2 * tc.2 else tc.2)) = false := by decide +kernel
+
+/-- The bracketing of `_bch_expand_multiple_terms` (`ops[: n // 2]`, `ops[n // 2 :]`, recursively)
+uses each of the `n ≥ 1` operators exactly once and in the given order: the leaves of the
+tree, read left to right, are `0, 1, …, n-1`. -/
+theorem bch_split_tree_leaves (n : Nat) (h : 1 ≤ n) : leaves (splitTree n 0 n) = List.range n := by
+  rw [splitTree_leaves n 0 n h (Nat.le_refl _), List.range_eq_range']
+
+example : splitTree 3 0 3 = .node (.leaf 0) (.node (.leaf 1) (.leaf 2)) := rfl
 
 end OFV.C07
